@@ -24,7 +24,7 @@ RULE = (
     "links that did not exist before are exactly one per listed pair / truthy cell, type(l) is the requested class, "
     "l.v1/l.v2 = key/row -> value/column, creation order = input order (observable as the suffix order of each "
     "vertex's links); every vertex's prior links and universes are an unchanged prefix; read-back through "
-    "neighbors() and find_links reproduces the adjacency (symmetric closure for undirected types).  Error inputs "
+    "neighbors() and find_links reproduces the adjacency (symmetric closure for undirected types).  A matrix that loaded fine is edited in place into a non-square one and loaded again (same object).  Error inputs "
     "raise ValueError with every input vertex's snapshot unchanged.  Non-trivial = >= 3 pairs and (a self entry, a "
     "repeated entry or a prior link); distinct = distinct case value."
 )
@@ -229,13 +229,32 @@ def check_matrix(case):
         raise Violation("load_adj_matrix-raised", repr(e))
     pairs = [(i, j) for i in range(n) for j in range(n) if rows[i][j]]
     _check_built(u, vs, before, list(range(n)), pairs, case["cls"], [pu] + [v for v in vs if hasattr(v, "vertices")])
+    exotic = any(rows[i][j] not in (0, 1, True, False) and not isinstance(rows[i][j], bool) for i in range(n) for j in range(n))
+    # history: the same matrix object, edited in place into a non-square one (row count unchanged), loaded again
+    if n > 0 and case["badpos"] % 2:
+        before2 = snap(vs)
+        if case["badpos"] % 4 == 1:
+            rows[pos % n].append(1)
+        else:
+            rows[pos % n].pop()
+        try:
+            adjmatrix.load_adj_matrix(rows, side, C.LINK_CLASSES[case["cls"]])
+        except ValueError:
+            pass
+        except Exception as e:  # noqa
+            raise Violation("wrong-exception-type", f"reload of an edited (now non-square) matrix: {e!r}")
+        else:
+            raise Violation("bad-input-accepted", "reload of the same matrix object after a row was edited in place returned normally")
+        require(snap(vs) == before2, "bad-input-touched-graph", "reload of an edited matrix: a vertex gained a link or a universe although ValueError was raised")
     selfe = any(a == b for a, b in pairs)
     nt = len(pairs) >= 3 and (selfe or bool(case["prior"]))
     classes = ["matrix", "cls-" + C.LINK_NAMES[case["cls"]], f"n={n}"]
     if selfe:
         classes.append("self-entry")
-    if any(rows[i][j] not in (0, 1, True, False) and not isinstance(rows[i][j], bool) for i in range(n) for j in range(n)):
+    if exotic:
         classes.append("exotic-cell-values")
+    if n > 0 and case["badpos"] % 2:
+        classes.append("reloaded-after-in-place-edit")
     return dict(nt=nt, classes=classes)
 
 
